@@ -14,6 +14,7 @@ package vgis3
 import (
 	"bytes"
 	"context"
+	"crypto/rand"
 	"fmt"
 	"time"
 
@@ -123,9 +124,18 @@ func (s *S3Storage) Upload(data []byte, schema *arrow.Schema, contentEncoding st
 // Ensure S3Storage implements ExternalStorage at compile time.
 var _ vgirpc.ExternalStorage = (*S3Storage)(nil)
 
-// generateUUID returns a random UUID string.
+// generateUUID returns a random (version 4) UUID string.
+//
+// The bytes come from crypto/rand. Deriving them from the clock, as this
+// function used to (the decimal digits of time.Now().UnixNano()), repeats
+// keys for uploads in the same microsecond and across processes, so one
+// upload silently overwrote another's object.
 func generateUUID() string {
 	b := make([]byte, 16)
-	_, _ = bytes.NewReader([]byte(fmt.Sprintf("%d", time.Now().UnixNano()))).Read(b)
+	if _, err := rand.Read(b); err != nil {
+		panic(fmt.Sprintf("vgis3: reading random bytes for an object key: %v", err))
+	}
+	b[6] = (b[6] & 0x0f) | 0x40 // version 4
+	b[8] = (b[8] & 0x3f) | 0x80 // RFC 4122 variant
 	return fmt.Sprintf("%x-%x-%x-%x-%x", b[0:4], b[4:6], b[6:8], b[8:10], b[10:])
 }
